@@ -46,35 +46,63 @@ def specOf (V : Nat) (tb : Table) : List Int → List Score :=
 def slotJ (s : Slot) : Json :=
   objJ [("path", listJ intJ s.path), ("len", natJ s.len), ("score", scoreJ s.score)]
 
-/-- Tie information for one selection: `(finiteTie, ninfChoice)`. -/
-def tieInfo (cands : List Score) (K : Nat) : Bool × Bool :=
+def minGap (a b : Option Rat) : Option Rat :=
+  match a, b with
+  | none, x => x
+  | x, none => x
+  | some x, some y => some (if x ≤ y then x else y)
+
+/-- Tie information for one selection: `(finiteTie, ninfChoice, gap)`; `gap` is the smallest
+difference between two neighbours among the first `K + 1` candidates in sorted order (both
+finite): every decision of `topk` that shows in the result — who is in, and in which order —
+has at least this margin. -/
+def tieInfo (cands : List Score) (K : Nat) : Bool × Bool × Option Rat :=
   let sorted := (cands.zipIdx.mergeSort fun a b => Score.le b.1 a.1).map (·.1)
   let top := sorted.take (K + 1)
   let fin := (top.zip top.tail).any fun (a, b) => a.isSome && a == b
   let nNone := (cands.filter (·.isNone)).length
   let ninf := (sorted.take K).any (·.isNone) && decide (2 ≤ nNone)
-  (fin, ninf)
+  let gap := (top.zip top.tail).foldl (fun g (a, b) =>
+    match a, b with
+    | some x, some y => minGap g (some (x - y))
+    | _, _ => g) none
+  (fin, ninf, gap)
 
-def elemTie (cfg : Cfg) (lm : LM St) (t : Nat) (e : Elem St) : Bool × Bool :=
+def elemTie (cfg : Cfg) (lm : LM St) (t : Nat) (e : Elem St) : Bool × Bool × Option Rat :=
   let rows := elemRows cfg lm t e
   let cands := candidates (e.slots.map (clampSlot cfg.V)) (rows.map (·.1))
   tieInfo cands (min cfg.width (e.slots.length * cfg.V))
 
+/-- What is collected along the trajectory: tie flags, the smallest selection margin, and for
+every batch element the size `S` of the history tensor at the step at which it was first found
+finished (from then on its columns are only right-padded). -/
+structure Traj where
+  tie : Bool := false
+  ninf : Bool := false
+  gap : Option Rat := none
+  frozen : List (Option Nat) := []
+
 /-- The model's `loop`, re-run step by step through `stepBatch` so that tie flags can be
 collected along the trajectory (the result is asserted equal to `search`). -/
 def loopFlags (cfg : Cfg) (lm : LM St) :
-    Nat → Nat → Nat → Nat → List (Elem St) → Bool × Bool → Nat →
-    (Except String (Nat × List (Elem St))) × (Bool × Bool) × Nat
-  | 0, t, S, _, elems, fl, _ => (.ok (S, elems), fl, t)
+    Nat → Nat → Nat → Nat → List (Elem St) → Traj → Nat →
+    (Except String (Nat × List (Elem St))) × Traj × Nat
+  | 0, t, S, _, elems, fl, _ => (Except.ok (S, elems), fl, t)
   | fuel + 1, t, S, Kp, elems, fl, _ =>
-    if cfg.eos.isSome && t != 0 && elems.all (elemDone cfg t) then (.ok (S, elems), fl, t)
+    if cfg.eos.isSome && t != 0 && elems.all (elemDone cfg t) then (Except.ok (S, elems), fl, t)
     else
-      let fl' := elems.foldl (fun acc e =>
+      let fl1 : Traj := elems.foldl (fun (acc : Traj) e =>
         if elemDone cfg t e then acc else
           let ti := elemTie cfg lm t e
-          (acc.1 || ti.1, acc.2 || ti.2)) fl
+          ({ acc with tie := acc.tie || ti.1, ninf := acc.ninf || ti.2.1,
+                      gap := minGap acc.gap ti.2.2 } : Traj)) fl
+      let fr : List (Option Nat) := (elems.zip fl1.frozen).map fun (e, f) =>
+        match f with
+        | some s => some s
+        | none => if elemDone cfg t e then some S else none
+      let fl' : Traj := { fl1 with frozen := fr }
       match stepBatch selDet cfg lm (0, []) t S Kp elems with
-      | .error e => (.error e, fl', t)
+      | .error e => (Except.error e, fl', t)
       | .ok (S', elems') => loopFlags cfg lm fuel (t + 1) S' cfg.width elems' fl' 0
 
 def c04Search : Handler := fun c => do
@@ -106,7 +134,8 @@ def c04Search : Handler := fun c => do
       let cfg : Cfg := ⟨V, width, eos, finishAll, pad, 0, pinned⟩
       let lm := tableLM V tables.toArray
       let inits : List St := (List.range tables.length).map fun n => (n, [])
-      let (res, fl, steps) := loopFlags cfg lm fuel 0 0 1 (inits.map initElem) (false, false) 0
+      let (res, fl, steps) := loopFlags cfg lm fuel 0 0 1 (inits.map initElem)
+        ({ frozen := inits.map fun _ => none } : Traj) 0
       let direct := search selDet cfg lm (0, []) inits fuel
       let modelJ ← match res, direct with
         | .error e, .error e' =>
@@ -128,7 +157,8 @@ def c04Search : Handler := fun c => do
       pure (objJ [("model", modelJ),
         ("spec", objJ [("chain", listJ (listJ scoreJ) chains), ("complete", complete),
           ("eos", optJ intJ eos)]),
-        ("flags", objJ [("tie", boolJ fl.1), ("ninf_choice", boolJ fl.2), ("steps", natJ steps)])])
+        ("flags", objJ [("tie", boolJ fl.tie), ("ninf_choice", boolJ fl.ninf), ("steps", natJ steps),
+          ("gap", optJ ratToJson fl.gap), ("frozen", listJ (optJ natJ) fl.frozen)])])
 
 /-- case: {V, width, S, lens_given, rows: [ {cols:[[..]..], lens:[..], scores:[..], logp:[[..]..]} ]} -/
 def c04Advance : Handler := fun c => do
@@ -148,7 +178,7 @@ def c04Advance : Handler := fun c => do
     pure (slots, logp)
   let ties := rows.map fun (slots, logp) =>
     tieInfo (candidates slots logp) (min width.toNat (slots.length * V))
-  let flags := objJ [("tie", boolJ (ties.any (·.1))), ("ninf_choice", boolJ (ties.any (·.2)))]
+  let flags := objJ [("tie", boolJ (ties.any (·.1))), ("ninf_choice", boolJ (ties.any (·.2.1)))]
   if width < 1 then
     pure (objJ [("model", objJ [("error", strJ "runtime")]), ("flags", flags)])
   else
